@@ -152,6 +152,23 @@ def walkExprItems : List Node → List Node
   | c :: rest => walkExpr c ++ walkExprItems rest
 end
 
+mutual
+/-- the outermost query statements inside an expression (sub-queries: PostgreSQL wraps them in SubLink, the
+MySQL conversion does not) -/
+def topStmts : Node → List Node
+  | .nd k fs =>
+    if k == "SelectStmt" || k == "InsertStmt" || k == "UpdateStmt" || k == "DeleteStmt" then [.nd k fs]
+    else topStmtsFields fs
+  | .list is => topStmtsItems is
+  | _ => []
+def topStmtsFields : List (String × Bool × Node) → List Node
+  | [] => []
+  | (_, _, c) :: rest => topStmts c ++ topStmtsFields rest
+def topStmtsItems : List Node → List Node
+  | [] => []
+  | c :: rest => topStmts c ++ topStmtsItems rest
+end
+
 /-- every column reference inside an expression (not descending into sub-selects) -/
 def innerColRefs (e : Node) : List Node :=
   (walkExpr e).filter (fun n => n.isKind "ColumnRef" && !hasStarRef n)
@@ -184,7 +201,8 @@ def analyzeLevel (c : Cat) : Nat → List (String × List ColInfo) → List Scop
         let s ← analyzeLevel c fuel st.1 [] (item.get "Ctequery")
         let nm := (item.get "Ctename").strVal
         let named := applyColNames ((item.get "Aliascolnames").stringItems) s.shape
-        pure (st.1 ++ [(nm, named.map (fun ci => { ci with origin := none }))], st.2 ++ s.pairs)) (ctes, []))
+        -- (a CTE's columns keep their origin: types are tracked THROUGH the CTE)
+        pure (st.1 ++ [(nm, named)], st.2 ++ s.pairs)) (ctes, []))
     -- set operations: the left arm's shape
     if stmt.isKind "SelectStmt" && !(stmt.get "Larg").isNull && (stmt.get "TargetList").items.isEmpty then do
       let l ← analyzeLevel c fuel ctes outer (stmt.get "Larg")
@@ -234,9 +252,9 @@ def analyzeLevel (c : Cat) : Nat → List (String × List ColInfo) → List Scop
     let condNodes := fromList.flatMap (joinQuals fuel) ++ [stmt.get "WhereClause"]
     let wherePairs := condNodes.flatMap (exprPairs scopes)
     -- sub-selects inside the conditions (EXISTS / IN (SELECT …))
-    let subs := condNodes.flatMap (fun e => e.search (·.isKind "SubLink"))
-    let subPairs ← subs.foldlM (fun (acc : List Pairing) sl => do
-      let s ← analyzeLevel c fuel ctes scopes (sl.get "Subselect")
+    let subs := condNodes.flatMap topStmts
+    let subPairs ← subs.foldlM (fun (acc : List Pairing) sub => do
+      let s ← analyzeLevel c fuel ctes scopes sub
       pure (acc ++ s.pairs)) []
     -- INSERT … VALUES / SELECT: the k-th value feeds the k-th target column; UPDATE SET: the assigned column
     let tableCols : SRes (List ColInfo) := match scope.head? with
@@ -266,7 +284,11 @@ def analyzeLevel (c : Cat) : Nat → List (String × List ColInfo) → List Scop
             ({ number := n.1, loc := n.2, col := match cols.filter (·.name == (rt.get "Name").strVal) with
                 | [ci] => .ok ci
                 | _ => .error (.columnMissing (rt.get "Name").strVal) } : Pairing)))
-        pure (ps ++ ocPairs, !missing.isEmpty)
+        -- INSERT … SELECT … FROM: the source query is a level of its own
+        let srcPairs ← (if (sel.get "FromClause").items.isEmpty then pure [] else do
+          let s ← analyzeLevel c fuel ctes outer sel
+          pure s.pairs : SRes (List Pairing))
+        pure (ps ++ ocPairs ++ srcPairs, !missing.isEmpty)
       | "UpdateStmt" => do
         let cols ← tableCols
         let sets := (stmt.get "TargetList").items
@@ -306,14 +328,14 @@ def analyzeLevel (c : Cat) : Nat → List (String × List ColInfo) → List Scop
         allResolve (retScope :: outer) v
         pure (acc ++ [{ name := alias.getD dn, named := alias.isSome || isCol }])) []
     -- sub-selects inside result expressions (scalar sub-queries) are query levels of their own
-    let targetSubs := targets.items.flatMap (fun rt => if rt.isKind "ResTarget" then (rt.get "Val").search (·.isKind "SubLink") else [])
-    let targetSubPairs ← targetSubs.foldlM (fun (acc : List Pairing) sl => do
-      let s ← analyzeLevel c fuel ctes (retScope :: outer) (sl.get "Subselect")
+    let targetSubs := targets.items.flatMap (fun rt => if rt.isKind "ResTarget" then topStmts (rt.get "Val") else [])
+    let targetSubPairs ← targetSubs.foldlM (fun (acc : List Pairing) sub => do
+      let s ← analyzeLevel c fuel ctes (retScope :: outer) sub
       pure (acc ++ s.pairs)) []
     -- UPDATE SET values may hold sub-selects too
-    let setSubs := if stmt.isKind "UpdateStmt" then (stmt.get "TargetList").items.flatMap (fun rt => (rt.get "Val").search (·.isKind "SubLink")) else []
-    let setSubPairs ← setSubs.foldlM (fun (acc : List Pairing) sl => do
-      let s ← analyzeLevel c fuel ctes scopes (sl.get "Subselect")
+    let setSubs := if stmt.isKind "UpdateStmt" then (stmt.get "TargetList").items.flatMap (fun rt => topStmts (rt.get "Val")) else []
+    let setSubPairs ← setSubs.foldlM (fun (acc : List Pairing) sub => do
+      let s ← analyzeLevel c fuel ctes scopes sub
       pure (acc ++ s.pairs)) []
     let loose := dmlLoose || condNodes.any (fun e => match allResolve scopes e with | .ok _ => false | .error _ => true)
     pure { shape := shape, pairs := ctePairs ++ fromPairs ++ wherePairs ++ subPairs ++ dmlPairs ++ targetSubPairs ++ setSubPairs, loose := loose }
